@@ -386,7 +386,16 @@ pub fn run(tier: Tier) -> i32 {
         }
     }
     let max_len = tier.pick(3, 4);
-    let seqs = sequences(pool.len(), max_len);
+    let mut seqs = sequences(pool.len(), max_len);
+    // moderate size: every rule of the pool in one ruleset, in every rotation and reversed
+    let n = pool.len();
+    for r in 0..n {
+        let rot: Vec<usize> = (0..n).map(|i| (i + r) % n).collect();
+        let mut rev = rot.clone();
+        rev.reverse();
+        seqs.push(rot);
+        seqs.push(rev);
+    }
     rep.bound("rule_pool", pool.len());
     rep.bound("max_rules_per_ruleset", max_len);
     rep.bound("rule_sequences", seqs.len());
